@@ -8,7 +8,7 @@
   lazy_filters.py, `LinearFilter.__call__`:
       if any(key < 0 …): raise ValueError("Non-causal filter")
       if isinstance(self.denpoly[0], Stream):            # variable output gain
-        den = self.denpoly ; inv_gain = 1 / den[0]
+        den = Poly(self.denpoly) ; inv_gain = 1 / den[0]          # a NEW dictionary (D16 repaired)
         den[0] = 0 ; den *= inv_gain.copy() ; den[0] = 1
         return ZFilter(self.numpoly * inv_gain, den)(seq, memory=memory, zero=zero)
       if self.denpoly[0] == 0: raise ZeroDivisionError
@@ -40,8 +40,10 @@
   * a coefficient is `Coef α = const c | strm s` with `s : List α` the items the Stream will
     deliver (an endless / periodic Stream is represented by a long enough prefix);
   * a generator whose body meets `StopIteration` (a coefficient stream ended) ENDS — the
-    behaviour the code was written for (Python < 3.7).  On CPython ≥ 3.7 PEP 479 turns this into
-    `RuntimeError` (defect D13); the outputs produced before are the same.
+    generated loop body is wrapped in `try: … except StopIteration: return` (D13 repaired).
+  * a coefficient iterator that RAISES anything else kills the generator with that exception: in
+    the model such a source is the list of the items it delivers before, the tie checks that the
+    exception reaches the caller after exactly those outputs and that the next `next()` stops.
   * the loop state keeps one iterator (remaining items) per coefficient argument `b{k}` / `a{k}`,
     so the number of `next` calls per output is part of the model (`reads_once`).
 -/
